@@ -610,8 +610,9 @@ class CfgCtl:
 class BuilderSim:
     """World for engine B."""
 
-    def __init__(self, ctx, root_kind=None, features=None, max_steps=60):
+    def __init__(self, ctx, root_kind=None, features=None, max_steps=60, root_inputs=None):
         self.ctx = ctx
+        self.root_inputs = root_inputs
         self._id = 0
         self.actors = []  # Actor | CondCtl | CfgCtl
         self.consts = []  # (node, type, parent_idx)
@@ -783,7 +784,8 @@ class BuilderSim:
             self.root_ctl = ModuleCtl(self)
             self.actors.append(self.root_ctl)
             return
-        ins = self.gen_row(3)
+        ri = self.root_inputs
+        ins = list(ri) if (ri is not None and rk in ("dfg", "cfg")) else self.gen_row(3)
         if rk in ("dfg", "tracked"):
             b = Dfg(*ins) if rk == "dfg" else TrackedDfg(*ins, track_inputs=ch.coin(1, 2, "track-inputs"))
             a = Actor(self, "dfg-root", b, ins, None, None)
@@ -793,14 +795,17 @@ class BuilderSim:
             b = Function("main", ins)
             a = Actor(self, "func", b, ins, None, None)
         elif rk == "tailloop":
-            ji, rest = self.gen_row(2), self.gen_row(2)
+            ji, rest = (list(ri[0]), list(ri[1])) if ri is not None else (self.gen_row(2), self.gen_row(2))
             jo = self.gen_row(2)
             b = TailLoop(ji, rest)
             a = Actor(self, "loop", b, [*ji, *rest], None, None, required=[mk_sum([ji, jo]), *rest])
         elif rk == "conditional":
-            rows = [self.gen_row(2) for _ in range(1 + ch.draw(3, "n-cases"))]
-            sum_ty = mk_sum(rows)
-            other = self.gen_row(2)
+            if ri is not None:
+                sum_ty, other = ri[0], list(ri[1])
+            else:
+                rows = [self.gen_row(2) for _ in range(1 + ch.draw(3, "n-cases"))]
+                sum_ty = mk_sum(rows)
+                other = self.gen_row(2)
             out = self.gen_row(2)
             b = Conditional(sum_ty, other)
             self.root_builder = b
@@ -889,10 +894,11 @@ class BuilderSim:
             2 if len(a.nodes) >= 2 else 0,  # state order
             2 if (self.funcs and f.get("calls", True)) else 0,  # call / load_function
             w_close,
+            0 if deep or not f.get("insert", False) else 1,  # insert a detached builder
         ]
         k = ch.weighted(weights, "actor-step")
         [self.step_leaf, self.step_load, self.step_nested, self.step_cond, self.step_loop, self.step_cfg,
-         self.step_order, self.step_call, lambda a: a.close()][k](a)
+         self.step_order, self.step_call, lambda a: a.close(), self.step_insert][k](a)
 
     # ---- steps ------------------------------------------------------------------------------------------
     def maybe_meta(self):
@@ -1108,6 +1114,50 @@ class BuilderSim:
         a.dep_local(ws, b.parent_node.idx)
         self.actors.append(CfgCtl(self, a, b, [w.ty for w in ws], out_row))
         self.ctx.probe("cfg")
+
+    def step_insert(self, a: Actor):
+        """Build a detached container (own Hugr, own interleaved sub-simulation) and attach it with insert_*."""
+        ch = self.ctx.ch
+        t = T()
+        kind = ch.pick(["dfg", "cfg", "conditional", "tailloop"], "detached-kind")
+        sub_feats = dict(self.features, insert=False, calls=False, poly=False)
+        if kind == "conditional":
+            sums = [w for w in a.live() if isinstance(w.ty, t.tys.Sum) and len(w.ty.variant_rows) >= 1]
+            sw = ch.pick(sums, "cond-sum") if sums and ch.coin(2, 3, "existing-sum") else a.find(t.B)
+            if sw.lin:
+                sw.used = True
+            others = self.pick_args(a, 2)
+            ws = [sw, *others]
+            ri = (sw.ty, [w.ty for w in others])
+        elif kind == "tailloop":
+            ji, rest = self.pick_args(a, 2), self.pick_args(a, 2)
+            ws = [*ji, *rest]
+            ri = ([w.ty for w in ji], [w.ty for w in rest])
+        else:
+            ws = self.pick_args(a, 3)
+            ri = [w.ty for w in ws]
+        if any(w.var for w in ws):
+            raise HarnessError("variable-typed wire passed to a detached builder")
+        self.ctx.ev(a.id, "detached-builder", kind)
+        sub = BuilderSim(self.ctx, root_kind=kind, features=sub_feats, max_steps=4 + ch.draw(15, "sub-steps"), root_inputs=ri)
+        sub.next_id = self.next_id  # actor ids stay unique across the sub-simulation
+        sub.run()
+        op = sub.hugr[sub.hugr.root].op
+        out_tys = list(op.outer_signature().output)
+        wires = [w.wire for w in ws]
+        if kind == "dfg":
+            n = a.call("insert_nested", a.b.insert_nested, sub.root_actor.b, *wires)
+        elif kind == "cfg":
+            n = a.call("insert_cfg", a.b.insert_cfg, sub.root_builder, *wires)
+        elif kind == "conditional":
+            n = a.call("insert_conditional", a.b.insert_conditional, sub.root_builder, wires[0], *wires[1:])
+        else:
+            n = a.call("insert_tail_loop", a.b.insert_tail_loop, sub.root_actor.b, wires[:len(ri[0])], wires[len(ri[0]):])
+        a.nodes.append(n)
+        a.dep_local(ws, n.idx)
+        self.handle(n, len(out_tys), f"insert_{kind}")
+        a.add_out(n, out_tys)
+        self.ctx.probe("insert_detached:" + kind)
 
     def step_order(self, a: Actor):
         ch = self.ctx.ch
